@@ -257,8 +257,18 @@ def _regex():
     return {"regex": _regex_stmt}
 
 
+def _phases():
+    """A stretch of cheap instructions, then (well before the deadline) a never-ending stretch of
+    instructions that are each bounded but ~40 times more costly: whatever the engine learnt about
+    its own speed in the first phase must not decide when it looks at the clock in the second."""
+    def phase_change(c, p):
+        return ("", "var O9={}; for(var q9=0;q9<60;q9++){ O9['k'+q9]=[q9,{a:q9,b:'x'+q9}]; } var S9=JSON.stringify(O9); "
+                    "for (var ph9=0; ph9<%d; ph9++){} while(%s){ JSON.parse(S9); }" % (p.get("ph_iters", 1000), _c(c)))
+    return {"phase_change": phase_change}
+
+
 KEEPALIVES = {}
-for _f in (_loops, _recursion, _callbacks, _accessors, _callapply, _nested_code, _host, _regex):
+for _f in (_loops, _recursion, _callbacks, _accessors, _callapply, _nested_code, _host, _regex, _phases):
     KEEPALIVES.update(_f())
 KEEPALIVE_NAMES = sorted(KEEPALIVES)
 
@@ -454,7 +464,10 @@ def gen_case(seed, i, tier="quick"):
         params["chain_depth"] = rng.choice((2, 3, 4))
         params["chain_iters"] = int(0.8 * t_work / 45)
         params["bounded"] = True
-    if tier != "quick" and rng.random() < 0.02:
+    if ka == "phase_change":
+        t_work = rng.choice((150_000, 200_000, 300_000))
+        params["ph_iters"] = int(rng.choice((0.2, 0.3, 0.4, 0.6)) * t_work / 45)
+    if tier != "quick" and rng.random() < 0.02 and ka != "phase_change":
         t_work = rng.randrange(1_000_000, 2_000_000)
     prelude = rng.choice(PRELUDES) if rng.random() < 0.5 else "none"
     params["prelude_n"] = rng.randrange(0, 400)
